@@ -637,6 +637,53 @@ func (c *vPortalCache) Execute(ctx context.Context, name string, reader *buffer.
 	return p.statement.fn(ctx, NewDataWriter(ctx, p.statement.columns, p.formats, reader, writer), p.parameters)
 }
 
+// ---------------------------------------------------------------------------
+// H19l — the session context keeps carrying the connection's own parameters
+// over a long session (C19, C18): QUERIES simple queries of about a kilobyte
+// each (more than the reader's 4 KiB allocation granule in total, the last one
+// with a symbolic byte), every parser and statement call recording the context
+// it was given. After the last one, every recorded context still yields the
+// client parameters of the start-up packet and the server parameters derived
+// from them.
+// ---------------------------------------------------------------------------
+func VerifH19l() {
+	n := vParam("QUERIES", 6)
+	user := vSymText(2)
+	var ctxs []context.Context
+	stmt := func(ctx context.Context, dw DataWriter, params []Parameter) error {
+		ctxs = append(ctxs, ctx)
+		return dw.Complete("T")
+	}
+	parse := func(ctx context.Context, query string) (PreparedStatements, error) {
+		ctxs = append(ctxs, ctx)
+		return Prepared(NewStatement(stmt)), nil
+	}
+	srv, err := NewServer(parse, MessageBufferSize(2048))
+	vAssert("newserver-ok", err == nil)
+	input := vStartup(vKV([]byte("user"), user, []byte("database"), []byte("d"), []byte("application_name"), []byte("verif")))
+	for k := 0; k < n; k++ {
+		q := make([]byte, 1000)
+		for i := range q {
+			q[i] = byte('a' + k)
+		}
+		if k == n-1 {
+			q[999] = nondetByte()
+			vAssume(q[999] != 0)
+		}
+		input = vCat(input, vMsgBytes('Q', vCStr(q)))
+	}
+	input = vCat(input, vMsgBytes('X', nil))
+	conn := vNewConn(input)
+	srv.serve(context.Background(), conn) //nolint
+	vAssert("every-query-served", len(ctxs) == 2*n && vCount(vTypes(conn.out), 'C') == n)
+	for _, ctx := range ctxs {
+		cp := ClientParameters(ctx)
+		vAssert("client-parameters-intact-after-a-long-session", vEqStr(cp[ParamUsername], string(user)) && cp[ParamDatabase] == "d" && cp["application_name"] == "verif")
+		vAssert("server-parameters-intact-after-a-long-session", vEqStr(ServerParameters(ctx)[ParamSessionAuthorization], string(user)))
+	}
+	vReach("more-than-a-granule-of-traffic")
+}
+
 // H19x — exactly one Terminate: the hook runs exactly once and the
 // connection is closed when its handler returns; nothing after X is answered.
 func VerifH19x() {
